@@ -5,5 +5,6 @@ CONSTANTS
   HasIds = TRUE
   PrebuiltWrapper = TRUE
   PoolLocked = TRUE
+  StaticScratch = FALSE
   MaxRuns = 1
 INVARIANT NeverJoined
